@@ -6,11 +6,13 @@ pub trait Suite {
 
 pub mod codec;
 pub mod config;
+pub mod seq;
 
 pub fn make(name: &str) -> Option<Box<dyn Suite>> {
     match name {
         "codec" => Some(Box::new(codec::Codec::new())),
         "config" => Some(Box::new(config::Config::new())),
+        "seq" => Some(Box::new(seq::Seq::new())),
         _ => None,
     }
 }
